@@ -2,31 +2,73 @@
 // log_sum_exp of utils.h.
 //   kind uvr : input (d x b), mean (d x 1), U (d x k), V (k x d), R (bs x rc),
 //              cov (d x d; the covariance U V + blockdiag(R) assembled by the generator)
-//   kind lse : x (n x 1), c (1 x 1)  [optional int matcols: also pass x reshaped as a matrix]
+//              [optional int order: 0..11, the order in which the three argument forms (plain matrices, blocks of
+//               larger buffers, expressions) are called and whether the log-densities come before the densities;
+//               optional int probe: 0 = no re-entrancy probe for this case]
+//   kind lse : x (n x 1), c (1 x 1)  [optional int matcols: also pass x reshaped as a matrix; int order, int probe]
+// All cases of a run are evaluated by ONE process in the order of the case file, on the main thread: the utilities are
+// pure functions, so the value of a call must not depend on the calls made before it (the generator emits chains of
+// consecutive cases that share bit-identical arguments with their predecessor while other arguments change).
+// Arguments of the plain calls live in persistent buffers: a case whose argument has the shape of the previous case's
+// argument is passed at the SAME ADDRESS with other values.
+// The re-entrancy probe (vf::concurrent_same) runs on threads of its own, so that it does not become part of the
+// call history of the main thread.
 #define VF_MAIN
 #include "common.hpp"
 #include <BayesFilters/utils.h>
+#include <algorithm>
 
 using namespace bfl;
 using namespace Eigen;
 
+// persistent argument buffers (Eigen keeps the allocation when the shape does not change)
+static MatrixXd g_input, g_U, g_V, g_R, g_cov, g_x;
+static VectorXd g_mean;
+
+static MatrixXd assemble(const MatrixXd& U, const MatrixXd& V, const MatrixXd& R) {
+    const long d = U.rows(), bs = R.rows();
+    MatrixXd S = U * V;
+    for (long i = 0; bs > 0 && i < d / bs; i++)
+        S.block(i * bs, i * bs, bs, bs) += (R.cols() == bs) ? R : R.block(0, i * bs, bs, bs);
+    return S;
+}
+
 int main() {
     vf::Case c;
     while (vf::read_case(std::cin, c)) {
+        const long order = c.has_int("order") ? c.integer("order") : 0;
+        const bool probe = !c.has_int("probe") || c.integer("probe") != 0;
+        const int reps = static_cast<int>(c.mi("reps", 25));
         if (c.kind == "uvr") {
-            const MatrixXd& input = c.mat("input");
-            const VectorXd mean = c.mat("mean").col(0);
-            const MatrixXd& U = c.mat("U"); const MatrixXd& V = c.mat("V"); const MatrixXd& R = c.mat("R");
-            const MatrixXd& cov = c.mat("cov");
+            g_input = c.mat("input"); g_mean = c.mat("mean").col(0);
+            g_U = c.mat("U"); g_V = c.mat("V"); g_R = c.mat("R"); g_cov = c.mat("cov");
+            const MatrixXd& input = g_input; const VectorXd& mean = g_mean;
+            const MatrixXd& U = g_U; const MatrixXd& V = g_V; const MatrixXd& R = g_R; const MatrixXd& cov = g_cov;
             const MatrixXd input0 = input, U0 = U, V0 = V, R0 = R, cov0 = cov; const VectorXd mean0 = mean;
-            VectorXd ld, dn, ldu, dnu;
-            { vf::Entry e("utils::multivariate_gaussian_log_density"); ld = utils::multivariate_gaussian_log_density(input, mean, cov); }
-            { vf::Entry e("utils::multivariate_gaussian_density"); dn = utils::multivariate_gaussian_density(input, mean, cov); }
-            { vf::Entry e("utils::multivariate_gaussian_log_density_UVR"); ldu = utils::multivariate_gaussian_log_density_UVR(input, mean, U, V, R); }
-            { vf::Entry e("utils::multivariate_gaussian_density_UVR"); dnu = utils::multivariate_gaussian_density_UVR(input, mean, U, V, R); }
+            const long d = input.rows(), b = input.cols(), k = U.cols();
+            // re-entrancy: the same calls from several threads on different data of the same shapes
+            bool conc = true;
+            if (probe) {
+                std::vector<std::function<MatrixXd()>> jobs;
+                for (int t = 0; t < 3; t++) {
+                    const MatrixXd Ut = U * (1.0 + 0.25 * t), Rt = R * (1.0 + 0.125 * (t + 1)), St = assemble(Ut, V, Rt);
+                    const VectorXd mt = mean.array() + 0.5 * t;
+                    const MatrixXd it = vf::rotate_cols(input, t) * (1.0 + 0.0625 * t);
+                    const MatrixXd Vt = V;
+                    jobs.push_back([=]() {
+                        MatrixXd o(it.cols(), 4);
+                        o.col(0) = utils::multivariate_gaussian_log_density(it, mt, St);
+                        o.col(1) = utils::multivariate_gaussian_log_density_UVR(it, mt, Ut, Vt, Rt);
+                        o.col(2) = utils::multivariate_gaussian_density(it, mt, St);
+                        o.col(3) = utils::multivariate_gaussian_density_UVR(it, mt, Ut, Vt, Rt);
+                        return o; });
+                }
+                std::thread th([&]() { vf::current_entry = "utils::multivariate_gaussian_(log_)density(_UVR) from several threads";
+                                       conc = vf::concurrent_same(jobs, reps); });
+                th.join();
+            }
             // the same calls with the arguments passed as views into larger buffers (the functions are
             // templates over MatrixBase / take Eigen::Ref: blocks, strides and expressions are legal arguments)
-            const long d = input.rows(), b = input.cols(), k = U.cols();
             MatrixXd big = MatrixXd::Constant(d + 3, b + 2, 1e9);
             big.block(2, 1, d, b) = input;
             VectorXd bigmean = VectorXd::Constant(d + 2, -1e9); bigmean.segment(1, d) = mean;
@@ -34,40 +76,80 @@ int main() {
             MatrixXd bigU = MatrixXd::Constant(d + 2, k + 1, 1e9); bigU.block(1, 1, d, k) = U;
             MatrixXd bigV = MatrixXd::Constant(k + 1, d + 1, 1e9); bigV.block(0, 1, k, d) = V;
             MatrixXd bigR = MatrixXd::Constant(R.rows() + 1, R.cols() + 1, 1e9); bigR.block(1, 0, R.rows(), R.cols()) = R;
-            VectorXd ldv, lduv;
-            { vf::Entry e("utils::multivariate_gaussian_log_density(views)");
-              ldv = utils::multivariate_gaussian_log_density(big.block(2, 1, d, b), bigmean.segment(1, d), bigcov.block(1, 2, d, d)); }
-            { vf::Entry e("utils::multivariate_gaussian_log_density_UVR(views)");
-              lduv = utils::multivariate_gaussian_log_density_UVR(big.block(2, 1, d, b), bigmean.segment(1, d), bigU.block(1, 1, d, k),
-                                                                  bigV.block(0, 1, k, d), bigR.block(1, 0, R.rows(), R.cols())); }
+            VectorXd ld, dn, ldu, dnu, ldv, dnv, lduv, dnuv, lde, ldue;
+            std::vector<std::function<void()>> logs[3], dens[3];
+            logs[0].push_back([&]() { vf::Entry e("utils::multivariate_gaussian_log_density"); ld = utils::multivariate_gaussian_log_density(input, mean, cov); });
+            logs[0].push_back([&]() { vf::Entry e("utils::multivariate_gaussian_log_density_UVR"); ldu = utils::multivariate_gaussian_log_density_UVR(input, mean, U, V, R); });
+            dens[0].push_back([&]() { vf::Entry e("utils::multivariate_gaussian_density"); dn = utils::multivariate_gaussian_density(input, mean, cov); });
+            dens[0].push_back([&]() { vf::Entry e("utils::multivariate_gaussian_density_UVR"); dnu = utils::multivariate_gaussian_density_UVR(input, mean, U, V, R); });
+            logs[1].push_back([&]() { vf::Entry e("utils::multivariate_gaussian_log_density(views)");
+                ldv = utils::multivariate_gaussian_log_density(big.block(2, 1, d, b), bigmean.segment(1, d), bigcov.block(1, 2, d, d)); });
+            logs[1].push_back([&]() { vf::Entry e("utils::multivariate_gaussian_log_density_UVR(views)");
+                lduv = utils::multivariate_gaussian_log_density_UVR(big.block(2, 1, d, b), bigmean.segment(1, d), bigU.block(1, 1, d, k),
+                                                                    bigV.block(0, 1, k, d), bigR.block(1, 0, R.rows(), R.cols())); });
+            dens[1].push_back([&]() { vf::Entry e("utils::multivariate_gaussian_density(views)");
+                dnv = utils::multivariate_gaussian_density(big.block(2, 1, d, b), bigmean.segment(1, d), bigcov.block(1, 2, d, d)); });
+            dens[1].push_back([&]() { vf::Entry e("utils::multivariate_gaussian_density_UVR(views)");
+                dnuv = utils::multivariate_gaussian_density_UVR(big.block(2, 1, d, b), bigmean.segment(1, d), bigU.block(1, 1, d, k),
+                                                                bigV.block(0, 1, k, d), bigR.block(1, 0, R.rows(), R.cols())); });
+            // expression arguments: 0.5 * (x + x) has the bits of x (no overflow at the magnitudes generated)
+            logs[2].push_back([&]() { vf::Entry e("utils::multivariate_gaussian_log_density(expression)");
+                lde = utils::multivariate_gaussian_log_density(0.5 * (input + input), mean, cov); });
+            logs[2].push_back([&]() { vf::Entry e("utils::multivariate_gaussian_log_density_UVR(expression)");
+                ldue = utils::multivariate_gaussian_log_density_UVR(0.5 * (input + input), mean, U, V, R); });
+            static const int perms[6][3] = {{0, 1, 2}, {1, 0, 2}, {2, 0, 1}, {0, 2, 1}, {1, 2, 0}, {2, 1, 0}};
+            const int* pm = perms[order % 6];
+            const bool dens_first = (order / 6) % 2 == 1;
+            for (int g = 0; g < 3; g++) {
+                auto& first = dens_first ? dens[pm[g]] : logs[pm[g]];
+                auto& second = dens_first ? logs[pm[g]] : dens[pm[g]];
+                if (dens_first) { for (auto it = first.rbegin(); it != first.rend(); ++it) (*it)(); for (auto it = second.rbegin(); it != second.rend(); ++it) (*it)(); }
+                else { for (auto& f : first) f(); for (auto& f : second) f(); }
+            }
             vf::out_begin(c.id);
             vf::out_mat("ld", ld); vf::out_mat("dn", dn); vf::out_mat("ldu", ldu); vf::out_mat("dnu", dnu);
-            vf::out_mat("ld_views", ldv); vf::out_mat("ldu_views", lduv);
+            vf::out_mat("ld_views", ldv); vf::out_mat("ldu_views", lduv); vf::out_mat("dn_views", dnv); vf::out_mat("dnu_views", dnuv);
+            vf::out_mat("ld_expr", lde); vf::out_mat("ldu_expr", ldue);
             vf::out_int("inputs_unchanged", vf::bit_equal(input, input0) && vf::bit_equal(mean, mean0) && vf::bit_equal(U, U0)
                                                 && vf::bit_equal(V, V0) && vf::bit_equal(R, R0) && vf::bit_equal(cov, cov0) ? 1 : 0);
+            if (probe) vf::out_int("concurrent_equal", conc ? 1 : 0);
             vf::out_end();
         } else if (c.kind == "lse") {
-            const VectorXd x = c.mat("x").col(0);
+            g_x = c.mat("x");
+            const VectorXd x = g_x.col(0);
             const double sh = c.mat("c")(0, 0);
-            double v, vs, vm = NAN;
-            { vf::Entry e("utils::log_sum_exp"); v = utils::log_sum_exp(x); }
-            VectorXd xs = (x.array() + sh).matrix();
-            { vf::Entry e("utils::log_sum_exp"); vs = utils::log_sum_exp(xs); }
-            long mc = c.has_int("matcols") ? c.integer("matcols") : 0;
-            if (mc > 0 && x.size() % mc == 0) {
-                MatrixXd xm = Map<const MatrixXd>(x.data(), x.size() / mc, mc);
-                vf::Entry e("utils::log_sum_exp"); vm = utils::log_sum_exp(xm);
+            bool conc = true;
+            if (probe) {
+                std::vector<std::function<MatrixXd()>> jobs;
+                for (int t = 0; t < 3; t++) {
+                    const VectorXd xt = (vf::rotate_cols(x.transpose(), t).transpose().array() + 0.5 * t).matrix();
+                    jobs.push_back([=]() { MatrixXd o(1, 1); o(0, 0) = utils::log_sum_exp(xt); return o; });
+                }
+                std::thread th([&]() { vf::current_entry = "utils::log_sum_exp from several threads"; conc = vf::concurrent_same(jobs, reps); });
+                th.join();
             }
+            double v = NAN, vs = NAN, vm = NAN, vr = NAN, vst = NAN, vex = NAN;
+            VectorXd xs = (x.array() + sh).matrix();
+            long mc = c.has_int("matcols") ? c.integer("matcols") : 0;
+            std::vector<std::function<void()>> calls;
+            calls.push_back([&]() { vf::Entry e("utils::log_sum_exp"); v = utils::log_sum_exp(x); });
+            calls.push_back([&]() { vf::Entry e("utils::log_sum_exp"); vs = utils::log_sum_exp(xs); });
+            if (mc > 0 && x.size() % mc == 0)
+                calls.push_back([&]() { MatrixXd xm = Map<const MatrixXd>(x.data(), x.size() / mc, mc);
+                                        vf::Entry e("utils::log_sum_exp"); vm = utils::log_sum_exp(xm); });
             // row vector, strided view (row of a column-major matrix), and an expression argument
-            double vr, vst, vex;
-            { RowVectorXd xr = x.transpose(); vf::Entry e("utils::log_sum_exp(row)"); vr = utils::log_sum_exp(xr); }
-            { MatrixXd pad = MatrixXd::Constant(3, x.size(), 1e9); pad.row(1) = x.transpose();
-              vf::Entry e("utils::log_sum_exp(strided)"); vst = utils::log_sum_exp(pad.row(1)); }
-            { vf::Entry e("utils::log_sum_exp(expression)"); vex = utils::log_sum_exp((x.array() + sh).matrix()); }
+            calls.push_back([&]() { RowVectorXd xr = x.transpose(); vf::Entry e("utils::log_sum_exp(row)"); vr = utils::log_sum_exp(xr); });
+            calls.push_back([&]() { MatrixXd pad = MatrixXd::Constant(3, x.size(), 1e9); pad.row(1) = x.transpose();
+                                    vf::Entry e("utils::log_sum_exp(strided)"); vst = utils::log_sum_exp(pad.row(1)); });
+            calls.push_back([&]() { vf::Entry e("utils::log_sum_exp(expression)"); vex = utils::log_sum_exp((x.array() + sh).matrix()); });
+            if (order % 2 == 1) std::reverse(calls.begin(), calls.end());
+            if ((order / 2) % 2 == 1 && calls.size() > 2) std::rotate(calls.begin(), calls.begin() + 2, calls.end());
+            for (auto& f : calls) f();
             vf::out_begin(c.id);
             vf::out_num("lse", v); vf::out_num("lse_shift", vs);
             vf::out_num("lse_row", vr); vf::out_num("lse_strided", vst); vf::out_num("lse_expr", vex);
             if (mc > 0) vf::out_num("lse_mat", vm);
+            if (probe) vf::out_int("concurrent_equal", conc ? 1 : 0);
             vf::out_end();
         } else {
             std::fprintf(stderr, "BFL_VERIF_HARNESS unknown kind %s\n", c.kind.c_str());
